@@ -30,6 +30,7 @@ func tdnPolicy(s *sched.Sim) sched.Policy {
 	narrow := [][]string{
 		{"sub.close.send"},
 		{"sub.listen.defer", "sub.listen.queryer-closed"},
+		{"sub.listen.select"},
 		{"sub.reader.send", "sub.reader.done"},
 		{"conn.write"},
 		{"up.emit"},
